@@ -469,7 +469,7 @@ func (g *Gen) one(m *State, perturb bool) sdk.Msg {
 		from := g.acct()
 		dst := Domains[r.Intn(len(Domains))]
 		if !perturb {
-			for d := range m.Messengers {
+			for _, d := range sortedDomains(m.Messengers) {
 				if r.Intn(2) == 0 {
 					dst = d
 				}
@@ -599,7 +599,7 @@ func (g *Gen) admin(m *State) sdk.Msg {
 		return &ct.MsgEnableAttester{From: g.maybeWrong(m.AM), Attester: AttesterPool[r.Intn(len(AttesterPool))].Spell(r.Intn(4))}
 	case 11, 12:
 		a := AttesterPool[r.Intn(len(AttesterPool))].Spell(r.Intn(4))
-		for s := range m.Attesters {
+		for _, s := range sortedStrings(m.Attesters) {
 			if r.Intn(2) == 0 {
 				a = s
 				break
@@ -671,3 +671,21 @@ func mkInt(b *big.Int) sdkmath.Int {
 }
 
 func msgs1(m sdk.Msg) []sdk.Msg { return []sdk.Msg{m} }
+
+func sortedDomains(m map[uint32][]byte) []uint32 {
+	out := make([]uint32, 0, len(m))
+	for d := range m {
+		out = append(out, d)
+	}
+	sort.Slice(out, func(i, j int) bool { return out[i] < out[j] })
+	return out
+}
+
+func sortedStrings(m map[string]bool) []string {
+	out := make([]string, 0, len(m))
+	for d := range m {
+		out = append(out, d)
+	}
+	sort.Strings(out)
+	return out
+}
